@@ -213,7 +213,7 @@ def typecheck(ir):
             if n in inp and inp[n] != d:
                 raise IllTyped("reduced variable domain mismatch")
             names.add(n)
-        if op in ("add", "mul", "logaddexp", "max", "min", "sample") and out[0] != "real":
+        if op in ("add", "mul", "logaddexp", "sample") and out[0] != "real":
             # reductions of bounded ints: range grows with multiplicity
             raise Unsupported("reduce bounded-int output")
         return OrderedDict((n, d) for n, d in inp.items() if n not in names), out
